@@ -43,7 +43,9 @@ func (s *Scen) syncCommitteeFor(sc *chain.StateCtx, slot common.Slot) (members [
 	return members, boundary
 }
 
-func (s *Scen) currentCommittee(sc *chain.StateCtx) []common.ValidatorIndex { return sc.SyncCommittee() }
+func (s *Scen) currentCommittee(sc *chain.StateCtx) []common.ValidatorIndex {
+	return sc.SyncCommittee()
+}
 
 func (s *Scen) subSize() int { return int(s.spec().SYNC_COMMITTEE_SIZE) / syncCommitteeSubnetCount }
 
@@ -191,7 +193,11 @@ func (s *Scen) syncMsgHistories(tier string, rng *rand.Rand) []*History {
 			otherIdx := common.ValidatorIndex((uint64(hm.validator) + 1) % n)
 			add("sig:wrong-key", func(m *syncMsg) bool { m.signer = sc.KeyOf(otherIdx); m.sigOK = false; return true })
 			add("sig:wrong-domain-type", func(m *syncMsg) bool { m.dom.Type = common.DOMAIN_BEACON_ATTESTER; m.sigOK = false; return true })
-			add("sig:wrong-fork-version", func(m *syncMsg) bool { m.dom.Version = s.otherVersion(sp.SlotToEpoch(m.slot)); m.sigOK = false; return true })
+			add("sig:wrong-fork-version", func(m *syncMsg) bool {
+				m.dom.Version = s.otherVersion(sp.SlotToEpoch(m.slot))
+				m.sigOK = false
+				return true
+			})
 			add("sig:over-other-root", func(m *syncMsg) bool { m.signRoot = site.head.Parent; m.sigOK = false; return true })
 			add("subnet:not-the-validators", func(m *syncMsg) bool {
 				for sn := uint64(0); sn < syncCommitteeSubnetCount; sn++ {
@@ -240,7 +246,10 @@ func (s *Scen) syncMsgHistories(tier string, rng *rand.Rand) []*History {
 				m.variant = "previous-slot"
 				return true
 			})
-			add("clock:two-slots-later", func(m *syncMsg) bool { m.now = slotStart(sp, site.slot+2) + clockDisparity + time.Millisecond; return true })
+			add("clock:two-slots-later", func(m *syncMsg) bool {
+				m.now = slotStart(sp, site.slot+2) + clockDisparity + time.Millisecond
+				return true
+			})
 			for _, vm := range vars {
 				out = append(out, seqRefusedThenValid(fmt.Sprintf("%s %s pos %d", vm.desc, name, pos), s.syncMsgStep(vm), h))
 			}
@@ -430,7 +439,11 @@ func (s *Scen) contribHistories(tier string, rng *rand.Rand) []*History {
 			add("selection:wrong-key", func(m *contribMsg) bool { m.selKey = okey; m.selOK = false; return true })
 			add("selection:wrong-domain-type", func(m *contribMsg) bool { m.selDom.Type = common.DOMAIN_SELECTION_PROOF; m.selOK = false; return true })
 			add("selection:wrong-fork-version", func(m *contribMsg) bool { m.selDom.Version = s.otherVersion(epoch); m.selOK = false; return true })
-			add("selection:other-subcommittee", func(m *contribMsg) bool { m.selSub = (m.selSub + 1) % syncCommitteeSubnetCount; m.selOK = false; return true })
+			add("selection:other-subcommittee", func(m *contribMsg) bool {
+				m.selSub = (m.selSub + 1) % syncCommitteeSubnetCount
+				m.selOK = false
+				return true
+			})
 			add("selection:other-slot", func(m *contribMsg) bool { m.selSlot++; m.selOK = false; return true })
 			if len(non) > 0 {
 				nonSelCovered = true
@@ -465,7 +478,11 @@ func (s *Scen) contribHistories(tier string, rng *rand.Rand) []*History {
 				return true
 			})
 			add("outer:wrong-key", func(m *contribMsg) bool { m.outKey = okey; m.outOK = false; return true })
-			add("outer:wrong-domain-type", func(m *contribMsg) bool { m.outDom.Type = common.DOMAIN_AGGREGATE_AND_PROOF; m.outOK = false; return true })
+			add("outer:wrong-domain-type", func(m *contribMsg) bool {
+				m.outDom.Type = common.DOMAIN_AGGREGATE_AND_PROOF
+				m.outOK = false
+				return true
+			})
 			add("outer:wrong-fork-version", func(m *contribMsg) bool { m.outDom.Version = s.otherVersion(epoch); m.outOK = false; return true })
 			add("aggsig:missing-signer", func(m *contribMsg) bool {
 				if len(m.sigSigners) < 2 {
@@ -475,7 +492,11 @@ func (s *Scen) contribHistories(tier string, rng *rand.Rand) []*History {
 				m.aggSigOK = false
 				return true
 			})
-			add("aggsig:wrong-domain-type", func(m *contribMsg) bool { m.sigDom.Type = common.DOMAIN_BEACON_ATTESTER; m.aggSigOK = false; return true })
+			add("aggsig:wrong-domain-type", func(m *contribMsg) bool {
+				m.sigDom.Type = common.DOMAIN_BEACON_ATTESTER
+				m.aggSigOK = false
+				return true
+			})
 			add("aggsig:over-other-root", func(m *contribMsg) bool { m.sigRoot = site.head.Parent; m.aggSigOK = false; return true })
 			add("bits:none", func(m *contribMsg) bool { m.positions = []int{}; m.sigSigners = []chain.KeyID{}; return true })
 			add("subcommittee-index:=count", func(m *contribMsg) bool {
@@ -493,7 +514,10 @@ func (s *Scen) contribHistories(tier string, rng *rand.Rand) []*History {
 				m.variant = "previous-slot"
 				return true
 			})
-			add("clock:two-slots-later", func(m *contribMsg) bool { m.now = slotStart(sp, site.slot+2) + clockDisparity + time.Millisecond; return true })
+			add("clock:two-slots-later", func(m *contribMsg) bool {
+				m.now = slotStart(sp, site.slot+2) + clockDisparity + time.Millisecond
+				return true
+			})
 			for _, vm := range vars {
 				out = append(out, seqRefusedThenValid(vm.desc+" "+tag, s.contribStep(vm), h))
 			}
